@@ -61,9 +61,10 @@ def main():
     pid, name = sys.argv[1], sys.argv[2]
     src = f'/tmp/seed/{pid}/out'
     diff, demo, meta = f'{src}/{name}.diff', f'{src}/{name}_demo.py', f'{src}/{name}.json'
-    alt = f'/tmp/seed_out/{pid}_{name}'          # second-round layout: one directory per change
-    if os.path.isdir(alt):
-        diff, demo, meta = f'{alt}/patch.diff', f'{alt}/demo.py', f'{alt}/meta.json'
+    for base in ('/tmp/seed_out', '/tmp/seed_out3'):          # later rounds: one directory per change
+        alt = f'{base}/{pid}_{name}'
+        if os.path.isdir(alt):
+            diff, demo, meta = f'{alt}/patch.diff', f'{alt}/demo.py', f'{alt}/meta.json'
     dst = os.path.join(ROOT, 'seeded', f'{pid}_{name}')
     conf = confirm(diff, demo)
     out = {'property': pid, 'name': name, 'confirmation': conf}
